@@ -68,8 +68,11 @@ def build(tier):
     # of both loops (8 consumer, 15 producer) placed everywhere between them
     QB = [[8], [15], [8, 15], [8, 14, 15]]
     qsched = C06.schedules([12, 14, 13, 4], QB[:3] if not quick else QB[:2], 2) + C06.schedules([0, 2, 12, 14, 2, 13, 4], QB[:2], 1)
+    # unregister then register again while an answer to the first registration is still travelling
+    qsched += [[12, 8, 14, 13, 12, 15, 8, 13, 4], [12, 8, 14, 13, 12, 8, 15, 14, 15, 13, 4], [12, 8, 14, 15, 13, 12, 8, 14, 15, 13, 4], [12, 8, 13, 12, 14, 8, 15, 13, 4],
+               [0, 2, 12, 8, 14, 13, 7, 12, 15, 8, 14, 15, 13, 4]]
     if not quick:
-        qsched += C06.schedules([12, 14, 13, 4], QB, 3) + C06.schedules([12, 14, 13, 12, 14, 4], QB[:3], 2) + C06.schedules([12, 14, 4], QB[:3], 2)
+        qsched += C06.schedules([12, 14, 13, 4], QB, 3) + C06.schedules([12, 14, 13, 12, 14, 13, 4], QB[:3], 2)
     for i, ops in enumerate(qsched):
         n = "qreq_" + "-".join(map(str, ops))
         if n in seen:
